@@ -48,6 +48,7 @@ def impl_solve_t(case):
                              lags=case.get('lags', 0), leads=case.get('leads', 0))
     o = case['opts']
     kw = solve_kwargs(o, case.get('kwargs'))
+    cause_is_original = None
     try:
         if case.get('entry', 'solve_t') == 'solve_period':
             r = m.solve_period(span[case['t'] if case['t'] >= 0 else case['t'] + n], **kw)
@@ -57,6 +58,10 @@ def impl_solve_t(case):
     except Exception as e:  # the observation: class and class of the chained cause
         c = e.__cause__
         out = ['raise', type(e).__name__, type(c).__name__ if c is not None else None]
+        last = m.__dict__.get('_last_exc')
+        if last is not None:
+            # an exception came out of a hook / _evaluate: is what surfaced a NEW exception chained to that very object?
+            cause_is_original = (c is last) and (e is not last)
     return {
         'out': out,
         'vals': [[lib.fhex(x) for x in m.__dict__['_V%d' % i]] for i in range(case['nvars'])],
@@ -67,6 +72,7 @@ def impl_solve_t(case):
         'raised': m.__dict__['_raised'],
         'blocked': [[b[0], b[1], lib.fhex(float.fromhex(b[2]) if b[2].startswith(('0x', '-0x')) else float(b[2]))] for b in m.__dict__['_blocked']],
         'warn_stored': m.__dict__.get('_warn_stored', []),
+        'cause_is_original': cause_is_original,
     }
 
 
@@ -220,7 +226,10 @@ SPAN_KIND = {'range': 0, 'list_str': 0, 'tuple_str': 0, 'list_dup': 0, 'np_int':
              # 4*year + quarter - 1, a year string is the key -(year)); period_q keeps the recorded table as a cross-check
              'period_qm': 4, 'period_qm_late': 4,
              # 5 = pandas IntervalIndex (get_loc answers with numpy.int64: kept finding of C05, SolveAllSpan.locate_interval)
-             'pd_interval': 5}
+             'pd_interval': 5,
+             # range spans with a step other than 1, both signs: integers strictly BETWEEN two periods are in bounds but are no periods
+             'range_s5': 0, 'range_neg2': 0}
+STEPPED = ('range_s5', 'range_neg2')
 PERIOD_MODELLED = ('period_qm', 'period_qm_late')
 # spans of integer labels that histories reindex (labels are their own ids, so ids stay meaningful across reindex())
 RX_KIND = {'rx_list': 0, 'rx_tuple': 0, 'rx_np': 1, 'rx_pd': 3}
@@ -240,8 +249,8 @@ def span_from_labels(span_type, labels):
         return pd.Index(list(labels))
     raise AssertionError(span_type)
 SPAN_NODUP = ('range', 'list_str', 'tuple_str', 'np_int', 'np_str', 'pd_int', 'pd_str', 'period_q', 'range0', 'list_empty', 'np_int0', 'pd_int0',
-              'period_qm', 'period_qm_late', 'rx_list', 'rx_tuple', 'rx_np', 'rx_pd', 'pd_interval')
-INT_LABELS = ('range', 'np_int', 'pd_int', 'range0', 'np_int0', 'pd_int0', 'rx_list', 'rx_tuple', 'rx_np', 'rx_pd')
+              'period_qm', 'period_qm_late', 'rx_list', 'rx_tuple', 'rx_np', 'rx_pd', 'pd_interval', 'range_s5', 'range_neg2')
+INT_LABELS = ('range', 'np_int', 'pd_int', 'range0', 'np_int0', 'pd_int0', 'rx_list', 'rx_tuple', 'rx_np', 'rx_pd', 'range_s5', 'range_neg2')
 
 
 def make_span(span_type, n):
@@ -260,6 +269,10 @@ def make_span(span_type, n):
         return np.array(lab, dtype=str) if n else np.array([], dtype=str)
     if span_type == 'range':
         return range(2000, 2000 + n)
+    if span_type == 'range_s5':
+        return range(2000, 2000 + 5 * n, 5)
+    if span_type == 'range_neg2':
+        return range(2010, 2010 - 2 * n, -2)
     if span_type == 'list_str':
         return strs
     if span_type == 'tuple_str':
@@ -311,6 +324,16 @@ def label_of(span_type, span, n, spec):
     k = spec[0]
     if k == 'pos':
         return span[spec[1]]
+    if k == 'pos_np':
+        import numpy as np
+        return np.int64(span[spec[1]])                 # the label of period i as a NumPy integer
+    if k in ('between', 'between_np'):
+        # an integer strictly between period i and the next one (inside the bounds of the range, but not a period)
+        lab = span[spec[1]] + (1 if span.step > 0 else -1)
+        if k == 'between_np':
+            import numpy as np
+            return np.int64(lab)
+        return lab
     if k == 'str':
         return str(span[spec[1]])
     if k == 'partial' and span_type in ('period_q',) + PERIOD_MODELLED:
@@ -349,10 +372,12 @@ def spec_id(case, ids, spec):
         if spec[0] == 'partial':
             return -int(spec[1] if len(spec) > 1 else 2000)
         return 4 * 1990                             # 'unknown': 1990Q1
-    if spec[0] == 'pos':
+    if spec[0] in ('pos', 'pos_np'):
         return ids[spec[1]]
     if spec[0] == 'str':
         return n + 10 + spec[1]
+    if spec[0] in ('between', 'between_np'):
+        return n + 30 + spec[1]                     # no period carries it
     return n + 5 if spec[0] == 'unknown' else n + 6
 
 
@@ -365,6 +390,8 @@ def label_specs(span_type, n):
     sp = [None] + [['pos', i] for i in range(n)] + [['unknown']]
     if span_type == 'period_q':
         sp += [['str', i] for i in range(n)] + [['partial']]
+    if span_type in STEPPED:
+        sp += [['pos_np', i] for i in range(n)] + [['between', i] for i in range(n)] + [['between_np', i] for i in range(n)]
     if span_type in PERIOD_MODELLED and MODELLED_PERIOD_KEYS:
         # full strings, and year strings matching no / some / (for longer spans) other quarters of the index
         sp += [['str', i] for i in range(n)] + [['partial', 1999], ['partial', 2000], ['partial', 2001]]
@@ -455,7 +482,7 @@ def expected_range(case):
     def one(spec, dflt):
         if spec is None:
             return dflt if 0 <= dflt < n else None
-        if spec[0] in ('pos', 'str'):
+        if spec[0] in ('pos', 'str', 'pos_np'):
             if cnt[spec[1]] >= 2:
                 return 'bad' if kind in (1, 3) else None
             return spec[1]
@@ -906,7 +933,7 @@ def hist_case(rng, errs=('raise', 'raise', 'skip', 'skip', 'ignore', 'replace'))
             vals = [1.0, 2.0, 1.0, 2.0]
         passes = settle_passes(0, vals)
         if 0.3 <= r < 0.38:
-            passes[rng.randrange(3)] = [['raise', rng.choice([10, 12])]]
+            passes[rng.randrange(3)] = [['raise', rng.choice([10, 12, 20, 21, 22, 23])]]
         elif 0.38 <= r < 0.46:
             passes[rng.randrange(3)] = [['warnset', 0, lib.fhex(rng.choice([float('inf'), 3.0]))]]
         elif 0.46 <= r < 0.6:
